@@ -190,8 +190,85 @@ def run(repo):
         res.inst({'interface': fi.fq, 'returns': len(o.returns), 'all_return_Solution': ok}, ok)
         for b in bad_ret:
             res.fail(Finding(RULE, fi.fq, 'return: ' + b[:50], '%s: %s' % (fi.fq, b), repo.where(fi), PROPS))
+        _sibling_bounds(repo, res, fi, root)
     _ecos_blocks(repo, res)
     return res
+
+
+def _sibling_bounds(repo, res, fi, root):
+    """(f) alternatives that create solver variables per variable type must agree on passing
+    the bounds: if one alternative of a vtype dispatch hands lb / ub to the solver, all do."""
+    bnames = {'lb': {'lb'}, 'ub': {'ub'}}
+    for n in walk_no_nested(fi.node):
+        if isinstance(n, ast.Assign) and len(n.targets) == 1 and isinstance(n.targets[0], ast.Name):
+            for x in ast.walk(n.value):
+                if isinstance(x, ast.Attribute) and isinstance(x.value, ast.Name) and x.value.id == root \
+                        and x.attr in ('lb', 'ub'):
+                    bnames[x.attr].add(n.targets[0].id)
+
+    def uses(node):
+        out = set()
+        for x in ast.walk(node):
+            if isinstance(x, ast.Attribute) and x.attr in ('lb', 'ub') and isinstance(x.value, ast.Name) \
+                    and x.value.id == root:
+                out.add(x.attr)
+            elif isinstance(x, ast.Name):
+                for k, names in bnames.items():
+                    if x.id in names and x.id != root:
+                        out.add(k)
+        return out
+
+    def creates_var(node):
+        return any(isinstance(x, ast.Call) and ('Var' in ntext(x.func) or 'ariable' in ntext(x.func))
+                   for x in ast.walk(node))
+
+    groups = []
+    # IfExp chains dispatching on the variable type
+    seen = set()
+    for n in walk_no_nested(fi.node):
+        if isinstance(n, ast.IfExp) and id(n) not in seen and 'vtype' in ntext(n.test):
+            alts = []
+            cur = n
+            while isinstance(cur, ast.IfExp):
+                seen.add(id(cur))
+                alts.append(cur.body)
+                cur = cur.orelse
+            alts.append(cur)
+            groups.append(('conditional expression on vtype', alts))
+    # sibling if-blocks whose tests derive from vtype and that create solver variables
+    derived = {'vtype'}
+    changed = True
+    while changed:
+        changed = False
+        for n in walk_no_nested(fi.node):
+            if isinstance(n, ast.Assign) and len(n.targets) == 1 and isinstance(n.targets[0], ast.Name):
+                if n.targets[0].id not in derived and any(
+                        (isinstance(x, ast.Name) and x.id in derived) or
+                        (isinstance(x, ast.Attribute) and x.attr == 'vtype') for x in ast.walk(n.value)):
+                    derived.add(n.targets[0].id)
+                    changed = True
+    blocks = [n for n in walk_no_nested(fi.node) if isinstance(n, ast.If) and
+              any(isinstance(x, ast.Name) and x.id in derived for x in ast.walk(n.test)) and
+              creates_var(ast.Module(body=n.body, type_ignores=[]))]
+    if len(blocks) >= 2:
+        groups.append(('blocks per variable type', [ast.Module(body=b.body, type_ignores=[]) for b in blocks]))
+    for what, alts in groups:
+        alts = [a for a in alts if creates_var(a)] if what.startswith('blocks') else alts
+        sets = [uses(a) for a in alts]
+        union = set().union(*sets) if sets else set()
+        if not union:
+            continue
+        ok = all(s == union for s in sets)
+        res.inst({'interface': fi.fq, 'vtype_dispatch': what, 'alternatives': len(alts),
+                  'bounds_used': [sorted(s) for s in sets], 'agree': ok}, ok)
+        if not ok:
+            bad = [ntext(a)[:50] for a, s in zip(alts, sets) if s != union]
+            res.fail(Finding(RULE, fi.fq, 'bounds dropped for one variable type',
+                             '%s: the alternatives of the %s do not agree on the bounds they hand to '
+                             'the solver: `%s` uses %s while its siblings use %s -- the user\'s bounds '
+                             'on that kind of variable never reach the solver'
+                             % (fi.fq, what, bad[0], sorted(sets[[s != union for s in sets].index(True)]),
+                                sorted(union)), repo.where(fi), PROPS))
 
 
 # ----------------------------------------------------------------------------- (d),(e) ECOS
